@@ -263,6 +263,13 @@ func advRun(t *testing.T, c *advCase) *advResult {
 			case "fwd":
 				h.settle()
 				h.st.SetForwarding(ifi.Name, s.On)
+			case "fwderr": // the forwarding state is unreadable while On
+				h.settle()
+				if s.On {
+					h.st.SetFwdErr(func(int, string) error { return fmt.Errorf("open: %w", vfake.ErrSyscall) })
+				} else {
+					h.st.SetFwdErr(nil)
+				}
 			}
 		}
 		if !stopped {
